@@ -57,6 +57,11 @@ def cases(tier):
     e2 = f"Ed DEFINITIONS EXPLICIT TAGS ::= BEGIN Beta ::= SEQUENCE {{ c [1] INTEGER (0..{P2}), d [2] BOOLEAN }} END"
     out.append(("same module name twice, sources permuted", [[e1, e2], [e2, e1]]))
     out.append(("same module name twice, inside one source", [[e1 + "\n" + e2], [e2 + "\n" + e1]]))
+    # 3c. what may follow the assignments of a module: an ENCODING-CONTROL section, a comment behind END - in a module that is
+    # not the last one of its source
+    ec = f"Sched {H} Slot ::= SEQUENCE {{ n INTEGER (0..{P1}) }} ENCODING-CONTROL XER GLOBAL-DEFAULTS MODIFIED-ENCODINGS ; END"
+    un = f"Units {H} Unit ::= ENUMERATED {{ s, m }} lim INTEGER ::= {P2} END -- units"
+    out.append(("modules with an ENCODING-CONTROL section / a comment behind END, permuted inside a source and over sources", [[ec + "\n" + un], [un + "\n" + ec], [ec, un], [un, ec]]))
     # 4. history: the same compilation before and after a different one
     other = f"Zz DEFINITIONS EXPLICIT TAGS EXTENSIBILITY IMPLIED ::= BEGIN Qq ::= SEQUENCE {{ q [3] IA5String (FROM (\"a\"..\"f\")), ... }} rr INTEGER ::= {P1} END"
     first = [f"M {H} {' '.join(base)} END"]
